@@ -4,6 +4,7 @@ import ast
 import itertools
 import json
 import threading
+import time
 import numpy as np
 
 import common
@@ -144,23 +145,37 @@ def replay(keys_kind, keys, ncalls, schedule):
     ths = [threading.Thread(target=worker, args=(i,), daemon=True) for i in range(n)]
     for t in ths:
         t.start()
+    stuck = False
     for i in range(n):
-        sched.arrived[i].wait(5)
+        stuck = stuck or not sched.arrived[i].wait(2)
     for tid in schedule:
+        if stuck:
+            break
         if tid >= n or sched.finished[tid]:
             continue
         sched.arrived[tid].clear()
         sched.go[tid].set()
-        sched.arrived[tid].wait(5)
+        stuck = not sched.arrived[tid].wait(2)
     # let everybody finish
     for i in range(n):
-        while not sched.finished[i]:
+        while not stuck and not sched.finished[i]:
             sched.arrived[i].clear()
             sched.go[i].set()
-            sched.arrived[i].wait(5)
+            stuck = not sched.arrived[i].wait(2)
+    if stuck:
+        # a worker did not reach its next atomic step: the cache blocks on something the lock-step replay does not model
+        # (e.g. a lock held across steps).  The workers are daemon threads; release them all and give up on this replay.
+        for i in range(n):
+            for _ in range(200):
+                sched.go[i].set()
+        raise ReplayStuck()
     for t in ths:
         t.join(5)
     return crashed, rets, len(gd)
+
+
+class ReplayStuck(Exception):
+    pass
 
 
 def model_steps_needed(ncalls):
@@ -179,7 +194,13 @@ def corr_cache(ck, rng):
         schedule = [int(x) for x in rng.integers(0, nth, size=L)]
         if i % 7 == 1:
             schedule = [0, 0, 1, 1, 1, 1, 0] + schedule      # the refuted witness
-        crashed, rets, size = replay(kind, keys, ncalls, schedule)
+        try:
+            crashed, rets, size = replay(kind, keys, ncalls, schedule)
+        except ReplayStuck:
+            ck.broken.append({"kind": "correspondence", "name": "cache_schedules",
+                              "detail": "the lock-step replay of TemplateMaskCache.get/set does not terminate: the cache blocks between its atomic dict steps "
+                                        f"(schedule {schedule[:12]}, {nth} threads); the cache model no longer describes the code"})
+            return
         # the replay lets every thread run to completion after the schedule: extend the model schedule the same way (round robin, in order)
         tail = []
         for t in range(nth):
@@ -297,6 +318,78 @@ def oracle_schedulers(ck, rng):
         sys.setswitchinterval(old)
 
 
+class SlowWedge:
+    """a user-defined tilt model whose mask construction takes a while (I/O bound), so that several worker threads are
+    inside the shared alignment model at the same time: makes interleavings on shared model state reproducible"""
+    _base = None
+
+    def __new__(cls, tilt_range=(-40.0, 40.0), delay=0.02):
+        from acryo.tilt import TiltSeriesModel, single_axis
+        if SlowWedge._base is None:
+            class _SlowWedge(TiltSeriesModel):
+                def __init__(self, tilt_range, delay):
+                    self._inner = single_axis(tilt_range)
+                    self._delay = delay
+
+                def create_mask(self, rotator, shape):
+                    time.sleep(self._delay)
+                    return self._inner.create_mask(rotator, shape)
+            SlowWedge._base = _SlowWedge
+        return SlowWedge._base(tilt_range, delay)
+
+
+def oracle_shared_state(ck, rng):
+    """results must not depend on what other tasks do to the shared alignment model: threads with forced overlap, and processes
+    (the task graph, alignment model included, must survive pickling)"""
+    import dask
+    from acryo import SubtomogramLoader, Molecules
+    from acryo.alignment import ZNCCAlignment
+    from scipy.spatial.transform import Rotation
+    img = rng.normal(size=(40, 40, 40)).astype(np.float32)
+    shape = (9, 9, 9)
+    tmpl = rng.normal(size=shape).astype(np.float32)
+
+    def loader(n, n_orient):
+        base = Rotation.random(n_orient, random_state=int(rng.integers(0, 1000))).as_quat()
+        rot = Rotation.from_quat(base[((np.arange(n) + 2) // 3) % n_orient])
+        return SubtomogramLoader(img, Molecules(rng.uniform(14, 26, size=(n, 3)), rot), order=1, output_shape=shape)
+
+    def score(ld, tilt):
+        return np.asarray(ld.score([tmpl], alignment_model=ZNCCAlignment, tilt=tilt)[0])
+
+    def align(ld, tilt):
+        out = ld.align(tmpl, max_shifts=1.5, alignment_model=ZNCCAlignment, tilt=tilt, rotations=((10, 10), (10, 10), (0, 0)))
+        return np.concatenate([out.molecules.pos, out.molecules.rotator.as_quat(), out.molecules.features["score"].to_numpy()[:, None]], axis=1)
+
+    def landscape(ld, tilt):
+        return np.asarray(ld.construct_landscape(tmpl, max_shifts=1.0, alignment_model=ZNCCAlignment, tilt=tilt).compute())
+
+    plans = [("score", score, loader(12, 3), lambda: SlowWedge(), dict(scheduler="threads", num_workers=4)),
+             ("align+rotations", align, loader(6, 6), lambda: SlowWedge(delay=0.005), dict(scheduler="threads", num_workers=4)),
+             ("landscape", landscape, loader(6, 2), lambda: SlowWedge(), dict(scheduler="threads", num_workers=3)),
+             ("score", score, loader(4, 2), lambda: (-40.0, 40.0), dict(scheduler="processes", num_workers=2)),
+             ("align+rotations", align, loader(3, 3), lambda: (-40.0, 40.0), dict(scheduler="processes", num_workers=2))]
+    if ck.tier != "quick":
+        plans += [("score", score, loader(30, 30), lambda: (-40.0, 40.0), dict(scheduler="threads", num_workers=8)),
+                  ("align+rotations", align, loader(12, 12), lambda: (-40.0, 40.0), dict(scheduler="threads", num_workers=8)),
+                  ("landscape", landscape, loader(4, 4), lambda: (-40.0, 40.0), dict(scheduler="processes", num_workers=2))]
+    for what, fn, ld, mk_tilt, kw in plans:
+        ck.oracle_count("shared_model_state", 1, 1)
+        with dask.config.set(scheduler="synchronous"):
+            ref = fn(ld, mk_tilt())
+        try:
+            with dask.config.set(**kw):
+                got = fn(ld, mk_tilt())
+            bad = got.shape != ref.shape or not np.allclose(got, ref, atol=1e-5, rtol=1e-5)
+            detail = f"{int((np.abs(got - ref).reshape(len(ref), -1).max(axis=1) > 1e-5).sum())} of {len(ref)} molecules differ from the synchronous result" if bad else ""
+        except Exception as e:  # noqa
+            bad, detail = True, f"raised {type(e).__name__}: {str(e)[:160]}"
+        if bad:
+            ck.violation(what=f"{what} with a missing-wedge model under {kw}: {detail}", inp={"operation": what, "scheduler": kw, "molecules": len(ld.molecules)},
+                         key={"site": "shared-model-state", "scheduler": kw["scheduler"], "symptom": "raised" if "raised" in detail else "differs"},
+                         oracle="shared_model_state")
+
+
 def run(ck: common.Check):
     ck.design_ref = "DESIGN.md §6 C10"
     ck.trusted_base = TB
@@ -311,6 +404,7 @@ def run(ck: common.Check):
     corr_cache(ck, rng)
     corr_shapes(ck, rng)
     oracle_schedulers(ck, rng)
+    oracle_shared_state(ck, rng)
 
 
 def replay_file(data):
